@@ -44,7 +44,9 @@ def M.propfail (s : M) (m : String) : M :=
   else { s with propfails := s.propfails + 1 }
 
 def shape (s : M) (addr : BV4) : String :=
-  s!"exact={if s.exact then 1 else 0} depth={if 2 ^ addr.length == s.depth then "pow2" else "npow2"} undef-addr-bits={(addr.filter (· == .x)).length}"
+  let c := candidates addr
+  let beyond := if c.all (· ≥ s.depth) then "all" else if c.any (· ≥ s.depth) then "some" else "none"
+  s!"exact={if s.exact then 1 else 0} depth={if 2 ^ addr.length == s.depth then "pow2" else "npow2"} undef-addr-bits={(addr.filter (· == .x)).length} candidates-beyond={beyond}"
 
 def relate (s : M) (what : String) (p : Nat) (abs conc : BV4) (absAddr addr : BV4) : M :=
   let s := { s with pairs := s.pairs + 1, bits := s.bits + abs.length }
@@ -71,8 +73,6 @@ def step (s : M) (line : String) : M :=
     let ra := BV4.ofString ra; let rb := BV4.ofString rb
     let a := s.addr.getD p []
     let mut s := { s with reads := s.reads + 2, hist := bump s.hist (shape s a) }
-    if memReadThrows s.exact s.depth none (some a) then
-      s := s.diff s!"kind=memread-guard port={p} addr={BV4.toString a}: the model's guard predicts a throw but the read was evaluated"
     let ma := memRead s.exact s.w s.ca none (some a)
     let mb := memRead s.exact s.w s.cb none (some a)
     if ma != ra then s := s.diff s!"kind=memread mem=A port={p} {shape s a} addr={BV4.toString a} model={BV4.toString ma} impl={BV4.toString ra} contents=[{" ".intercalate (s.ca.map BV4.toString)}]"
@@ -87,10 +87,8 @@ def step (s : M) (line : String) : M :=
       s := relate s "address-and-contents-concretised" p (s.absA.getD p []) rb aa a
     return s
   | "rdthrow" :: rest =>
-    -- the simulator threw while evaluating this run: exactly when the model's guard says so for some port
-    let s := { s with hist := bump s.hist "throws" }
-    if (List.range s.addr.size).any fun p => memReadThrows s.exact s.depth none (some (s.addr.getD p [])) then s
-    else s.diff ("kind=memread-guard the simulator threw but the model's guard does not predict it: " ++ " ".intercalate rest ++ " addrs=" ++ " ".intercalate (s.addr.toList.map BV4.toString))
+    -- the read is total in the model: a throwing simulator is a broken correspondence
+    (s.diff ("kind=memread-throws the simulator threw while evaluating a memory read: " ++ " ".intercalate rest ++ " addrs=" ++ " ".intercalate (s.addr.toList.map BV4.toString)))
   | "builderr" :: _ => { s with buildErr := s.buildErr + 1 }
   | "simerr" :: rest => s.diff ("kind=simerr " ++ " ".intercalate rest)
   | "crash" :: rest => { (s.diff ("kind=crash " ++ " ".intercalate rest)) with crashes := s.crashes + 1 }
